@@ -30,6 +30,8 @@ def cfgs(draw, not_eq=None, simple=False):
         "str_profile": draw(st.sampled_from(["dq", "dq", "sq", "multi"])),
         "field_profile": draw(st.sampled_from(["bare", "quoted", "pattern"])),
     }
+    if draw(st.integers(0, 3)) == 0:  # field references with the regular field quoting switched off per side
+        c["fref_q"] = draw(st.sampled_from([[True, False], [False, True], [False, False]]))
     return c
 
 
